@@ -15,7 +15,7 @@ func init() {
 		return map[string]interface{}{
 			"rule": "one run = one tape-drawn workload (generated import-rich source x goast-over-{guess,simple,gobuild} x edit script x Alias map x entry point), " +
 				"then EVERY single-fault plan over its resolver call sequence (ident call k=1..N, inner name-resolver call j=1..M, restore side every resolved path and every call index, natural not-found per path) " +
-				"plus tape-sampled 2-3 fault sequences. evaluations = faulted operations in which the injected fault actually fired. " +
+				"plus tape-sampled 2-3 fault sequences; in a third of the runs also every fault position while decorating an isolated declaration (DecorateNode) and a directory (ParseDir) with a caller-supplied resolver. evaluations = faulted operations in which the injected fault actually fired. " +
 				"A case is (workload hash, fault plan); it is counted as distinct_nontrivial only if the fault fired in it; distinctness is by 64-bit hash merged over all processes.",
 			"real": []string{"decorator.Decorator (DecorateFile, DecorateNode, ParseFile)", "decorator.Restorer / FileRestorer (Fprint, RestoreFile, updateImports)", "goast.DecoratorResolver", "guess / simple / gobuild RestorerResolver", "go/parser", "go/format"},
 			"stub": []string{"gobuild FindPackage (map-backed finder instead of the file system)", "fault-injecting wrappers around the public resolver interfaces"},
@@ -44,7 +44,7 @@ func init() {
 	}})
 	register(&Engine{Prop: "C15", Run: c15.Run, Watchdog: 300 * time.Second, Info: func() map[string]interface{} {
 		return map[string]interface{}{
-			"rule": "one run = one stored source (embedded corpus of 133 real/edge-case files or a generated file) and one fault mode: exhaustive truncation at every byte offset (sources <= 3000 bytes), reader errors at ~64 offsets plus (n>0, EOF) readers, writer errors at ~48 offsets, or 24 tape-sampled inputs with 1-3 composed storage faults (truncate, bitflip, zero/garbage/drop/dup/swap range, syntax byte); each faulted input goes through one of 7 parse entry points and every tree returned through every printer. " +
+			"rule": "one run = one stored source (embedded corpus of 133 real/edge-case files or a generated file) and one fault mode: exhaustive truncation at every byte offset or a comment inserted at every token boundary (sources <= 3000 bytes), reader errors at ~64 offsets plus (n>0, EOF) readers, writer errors at ~48 offsets, or 24 tape-sampled inputs with 1-3 composed storage faults (truncate, bitflip, zero/garbage/drop/dup/swap range, syntax byte, comment insertion); each faulted input goes through one of 7 parse entry points and every tree returned through every printer. " +
 				"evaluations = faulted inputs parsed; a case is (input bytes hash, entry point, parser mode, FileSet preload, stream fault) and is non-trivial when the bytes differ from the stored source or a stream fault is armed; distinct by 64-bit hash over all processes.",
 			"real": []string{"decorator.Parse / ParseFile / ParseDir / DecorateFile / Decorator with imports", "decorator.Fprint / RestoreFile / Restorer(imports).Fprint / Restorer(Extras)", "goast + guess resolvers", "go/parser", "go/format"},
 			"stub": []string{"faulty io.Reader / io.Writer", "storage-fault transformer over the stored bytes"},
@@ -59,13 +59,14 @@ func init() {
 	if raceorc.Enabled {
 		register(&Engine{Prop: "C16", Run: c16.Run, Init: c16.Init, Isolated: true, Watchdog: 300 * time.Second, Info: func() map[string]interface{} {
 			return map[string]interface{}{
-				"rule": "3/4 of the runs are scheduled runs: 2-6 real caller goroutines (1-3 pipelines each: Parse->Fprint, or DecorateFile/ParseFile with import management through a SHARED goast resolver -> tape-drawn edits -> import-managed Fprint through a SHARED read-only name resolver -> re-decorate), serialised by a race-detector-invisible scheduler whose every decision (first worker, change points / round-robin quantum / sticky-random switches) comes from the tape; oracles: race detector (O1), equality with an isolated sequential reference (O2), in-worker repetition (O3), no panic (O4), progress (O5). " +
+				"rule": "3/4 of the runs are scheduled runs: 2-6 real caller goroutines (1-3 pipelines each: Parse->Fprint, or DecorateFile/ParseFile with import management through a SHARED goast resolver -> tape-drawn edits -> import-managed Fprint through a SHARED read-only name resolver -> re-decorate), serialised by a race-detector-invisible scheduler whose every decision (first worker, change points / round-robin quantum / sticky-random switches, decision-point granularity: resolver calls only, or every function entry of an instrumented copy of the library) comes from the tape; oracles: race detector (O1), equality with an isolated sequential reference (O2), in-worker repetition (O3), no panic (O4), progress (O5). " +
 					"1/4 are repetition runs: decorate / restore / RestoreFile / ParseDir repeated R times (8 quick, 32 thorough) on equal inputs biased to map-derived choices. evaluations = runs; a scheduled run's distinct case is the hash of its (worker, site) sequence at context switches together with the shared kinds; a repetition run's is the hash of its results; distinct by 64-bit hash over all processes.",
 				"real": []string{"decorator.Decorator / Restorer / FileRestorer, one private instance per operation", "one shared goast.DecoratorResolver per run (New(), or over guess / simple / gobuild)", "one shared guess / simple / gobuild RestorerResolver per run", "go/parser, go/format", "Go race detector (ThreadSanitizer runtime) as the happens-before judge", "real goroutines"},
 				"stub": []string{"scheduler: turn word in raw-mmap'd memory, decisions from the tape", "gobuild FindPackage (map-backed)", "optional permanently failing path inside the shared name resolver"},
 				"not_run": []string{"gotypes / gopackages resolvers", "decorator.Load", "sharing a FileSet, Decorator or Restorer between goroutines (outside C16's statement)"},
 				"assumptions": []string{
-					"decision points are operation boundaries and every resolver call; between two decision points a worker runs atomically, so interleavings finer than that are not explored (the happens-before race verdict does not depend on them)",
+					"decision points are operation boundaries, every resolver call and (half of the scheduled runs) every function entry of dst; standard-library code between them runs atomically",
+					"a hang seen only with function-entry decision points is attributed to the simulator and the workload is re-run with resolver-call decision points; only a hang there is reported",
 					"the race detector sees only accesses that execute, within its bounded history",
 					"map iteration order cannot be seeded from outside the Go runtime; it is sampled by repetition, so a map-order violation replays with high probability rather than certainty",
 				},
